@@ -299,6 +299,23 @@ def case_fragment(rng, cid):
     return RCase("C02", code, "fragment" + ("/nodeps" if nd else ""))
 
 
+def case_block_fragment(rng, cid):
+    """C02 / C15: the whole body of an entraited fn handed over by macro_rules! as a `$body:block` fragment (one invisible group)"""
+    a, k = rng.choice([(3, 2), (5, 7), (11, 1)])
+    nd = rng.random() < 0.5
+    dep = "" if nd else "deps: &impl A, "
+    asy = rng.random() < 0.3
+    want = a * k + 1
+    call0 = "f(%s%d)" % ("" if nd else "&app, ", a)
+    call1 = "app.f(%d)" % a
+    if asy:
+        call0, call1 = "block_on(%s)" % call0, "block_on(%s)" % call1
+    code = ("pub mod k%d { use super::*;\nmacro_rules! mk { ($x:ident, $body:block) => { #[entrait(pub Tr%s)] pub %sfn f(%s$x: i64) -> i64 $body } }\nmk!(x, { x * %d + 1 });\n"
+            "pub fn run() { let app = Impl::new(App { tag: 7 }); let r0 = %s; let r1 = %s; report(%d, \"C02\", r0 == %d && r1 == %d, format!(\"{} {} want %d\", r0, r1)); }\n}") % (
+        cid, ", no_deps" if nd else "", "async " if asy else "", dep, k, call0, call1, cid, want, want, want)
+    return RCase("C02", code, "block_fragment" + ("/nodeps" if nd else "") + ("/async" if asy else ""))
+
+
 def build_cases(seed, tier):
     rng = random.Random(seed * 211 + 3)
     k = 5 if tier == "thorough" else 1
@@ -315,6 +332,8 @@ def build_cases(seed, tier):
         cases.append(case_unit(rng, len(cases)))
     for _ in range(8 * k):
         cases.append(case_fragment(rng, len(cases)))
+    for _ in range(6 * k):
+        cases.append(case_block_fragment(rng, len(cases)))
     for i, c in enumerate(cases):
         c.cid = i
     return cases
